@@ -33,6 +33,11 @@ func init() {
 			var stream bytes.Buffer
 			var planned []string
 			var bodies [][]byte
+			// model tie: for plainly streamed fixed-length bodies the Lean model of requestStream + the server's reuse
+			// decision is replayed on what the scripted handler did (rskeep); modelIdx[j] = request index of line j
+			var lines []string
+			var modelIdx []int
+			plainStream := map[string]bool{"st=1": true, "st=1,rm=1": true, "st=1,npp=1": true}[string(a[0])]
 			hasBody := false
 			badAt := -1 // index of the first request whose chunked framing is malformed: nothing may be dispatched after it
 			for i := 1; i < len(a)-1; i++ {
@@ -51,6 +56,29 @@ func init() {
 				fmt.Fprintf(&stream, "%s %s HTTP/1.1\r\nHost: h\r\n", f[0], uri)
 				if f[4] == "1" {
 					stream.WriteString("Expect: 100-continue\r\n")
+				}
+				if plainStream && f[2] == "cl" && f[4] != "1" && (f[0] == "POST" || f[0] == "PUT") {
+					end := ""
+					if len(f) > 5 {
+						end = f[5]
+					}
+					var acts [][]byte
+					switch {
+					case end == "bc=1":
+						acts = append(acts, B("a"), B("d"))
+					case f[3] == "none":
+					case f[3] == "all" || f[3] == "":
+						acts = append(acts, B("a"))
+					default:
+						if n, _ := strconv.Atoi(f[3]); n > 0 {
+							acts = append(acts, B("f"+f[3]))
+						}
+					}
+					if end == "rsb=1" || end == "sb=1" {
+						acts = append(acts, B("d"))
+					}
+					lines = append(lines, Line("rskeep", append([][]byte{N(size), N(min(size, 8192))}, acts...)...))
+					modelIdx = append(modelIdx, i-1)
 				}
 				if size > 0 {
 					hasBody = true
@@ -95,8 +123,8 @@ func init() {
 				got = append(got, string(d.URI))
 			}
 			impl := strings.Join(got, ",") + fmt.Sprintf(" closed=%v", res.Trace.Closed)
-			return &Case{Impl: impl, Nontrivial: hasBody, Tags: []string{"pipeline", fmt.Sprintf("dispatched=%d", len(got))},
-				Judge: func([]string) Verdict {
+			return &Case{Lines: lines, Impl: impl, Nontrivial: hasBody, Tags: []string{"pipeline", fmt.Sprintf("dispatched=%d", len(got)), fmt.Sprintf("model-tied-requests=%d", len(lines))},
+				Judge: func(replies []string) Verdict {
 					desc := fmt.Sprintf("cfg=%q requests=%q cuts=%q: dispatched [%s], planned [%s], wire %q", a[0], a[1:len(a)-1], a[len(a)-1], impl, strings.Join(planned, ","), trunc(res.Trace.Out, 300))
 					for _, e := range res.Trace.Events {
 						if e.Kind == "panic" {
@@ -116,7 +144,17 @@ func init() {
 							return Verdict{VSpec, "body-content-differs", fmt.Sprintf("dispatch #%d read %q... which is not a prefix of its body. %s", k, trunc(res.Dispatches[k].Body, 80), desc)}
 						}
 					}
-					// rejected expectation: never followed by another dispatch unless the connection continued at the right place (checked above)
+					// correspondence: the model's reuse decision for each plainly streamed fixed-length request that was dispatched
+					for j, rep := range replies {
+						k := modelIdx[j]
+						if k >= len(got) || rep == "no-driver" {
+							continue
+						}
+						kept := k+1 < len(got)
+						if want := strings.HasPrefix(rep, "keep"); want != kept {
+							return Verdict{VCorr, "stream-reuse-decision", fmt.Sprintf("request #%d (%q): connection reused=%v, model says %q. %s", k, a[k+1], kept, rep, desc)}
+						}
+					}
 					return Ok()
 				}}
 		},
